@@ -20,7 +20,32 @@ open Ply PlyLemmas
 
 variable {α : Type}
 
-/-! ### wire layer: fixed-width fields, real endianness -/
+/-- A concrete coding over `Nat` ("float32" keeps the value mod 2³², 8-bit mod 256, normalisation is `/ 255`, decimal
+printing / parsing of naturals).  Used only to instantiate hypotheses in `example`s (non-vacuity) and to make the
+counterexample theorems concrete.  NOTE: `Coding α` carries NO laws; every general theorem below holds for an arbitrary
+coding (even `f32 := fun _ => 0`) and speaks about `quantBin` = decode∘encode of THAT coding.  Precision content enters
+only through `CodingLaws` (end of file). -/
+def toyCoding : Coding Nat where
+  f32 x := UInt32.ofNat x
+  unf32 b := b.toNat
+  f64 x := UInt64.ofNat x
+  unf64 b := b.toNat
+  u8 x := UInt8.ofNat x
+  i32 x := UInt32.ofNat x
+  ofInt i := i.toNat
+  div255 x := x / 255
+  mulInv255 x := x / 255
+  showF x := showNat x
+  showI x := showNat x
+  parseF s := parseDigits s 0
+  parseF64 s := parseDigits s 0
+
+def toyMesh : MeshVal Nat :=
+  ⟨.triangle, [0, 1, 2], [⟨3, positionAttr, [[1, 2, 3], [4, 5, 6], [7, 8, 9]]⟩, ⟨2, texCoordAttr, [[1, 2], [3, 4], [5, 6]]⟩], none⟩
+
+/-! ### wire layer: fixed-width fields, real endianness
+
+`ply_put_get_32/64`, `ply_wire_roundtrip_field` are helpers (subsumed by `ply_wire_roundtrip_record`). -/
 
 /-- a 32-bit field written in either byte order is read back unchanged, whatever follows it -/
 theorem ply_put_get_32 (e : Endian) (w : UInt32) (rest : Bytes) : get32 e (put32 e w ++ rest) = some w :=
@@ -39,6 +64,8 @@ theorem ply_wire_roundtrip_field (c : Coding α) (e : Endian) (dim : Nat) (t : S
     decScalarBin c e dim t (pre ++ bs ++ post) pre.length = .ok (quantBin c dim t v) :=
   dec_enc_scalar c e dim t v bs pre post h
 
+example : encScalarBin toyCoding .be .float 258 = .ok [0, 0, 1, 2] := by decide
+
 /-- `ply_wire_roundtrip`, one vertex record, ANY header layout: decoding at the byte offset computed from header
 order (the sum of the sizes of the properties before it) yields the stored-precision image of the `i`-th value. -/
 theorem ply_wire_roundtrip_record (c : Coding α) (e : Endian) (dim : Nat)
@@ -48,12 +75,43 @@ theorem ply_wire_roundtrip_record (c : Coding α) (e : Endian) (dim : Nat)
       = .ok (quantBin c dim tys[i] (vals[i]'(by omega))) :=
   field_at_offset c e dim tys vals rec pre post i hi hv henc
 
+/-- the hypotheses are satisfiable: a record with a uchar, a float and a double field (guard `vals.length = tys.length`:
+`encRecordBin` zips, so a shorter value list would silently truncate — well-formed meshes give equal lengths,
+`vertexRecord_length`) -/
+example : encRecordBin toyCoding .le [.uchar, .float, .double] [7, 258, 3] = .ok [7, 2, 1, 0, 0, 3, 0, 0, 0, 0, 0, 0, 0] := by decide
+example : decScalarBin toyCoding .le 1 .float ([7, 2, 1, 0, 0, 3, 0, 0, 0, 0, 0, 0, 0] : Bytes) (offsetOf [.uchar, .float, .double] 1)
+    = .ok 258 := by decide
+
 /-! ### the header describes the body -/
+
+/-- WHAT `writeBody` EMITS (binary encodings): for every well-formed mesh and every writer configuration the body is
+exactly one record of Σ size(header property types) bytes per vertex followed, for triangle meshes, by one record of
+13 (+ 25 with per-corner texture coordinates) bytes per triangle. -/
+theorem ply_body_length_binary (c : Coding α) (cfg : WriterCfg) (m : MeshVal α) (body : Bytes)
+    (hf : cfg.format ≠ .ascii) (hwf : m.WF = true) (h : writeBody c cfg m = .ok body) :
+    body.length = m.attrLen * ((writerTypes (selectWriters cfg m)).map SType.size).sum
+      + (if m.topo = .triangle then triCount m * (13 + (if hasTexCoord m then 25 else 0)) else 0) := by
+  simpa [faceSize] using writeBody_binary_length c cfg m body hf hwf h
+
+/-- THE HEADER DESCRIBES THE BODY THAT FOLLOWS (binary encodings): what the header `MeshWriter.Write` emits declares —
+element counts × (sum of the sizes of the declared property types; for faces: count field + 3 indices, + count field +
+6 texture coordinates) — is exactly the length of the body `MeshWriter.Write` then writes. -/
+theorem ply_header_describes_body_binary (c : Coding α) (cfg : WriterCfg) (m : MeshVal α) (body : Bytes)
+    (hf : cfg.format ≠ .ascii) (hwf : m.WF = true) (h : writeBody c cfg m = .ok body) :
+    describedSize (writeHeader cfg m) = some body.length :=
+  writeHeader_describes_binary_body c cfg m body hf hwf h
+
+example : toyMesh.WF = true := by decide
+example : ∃ body, writeBody toyCoding (defaultWriter .be) toyMesh = .ok body ∧ body.length = 3 * 12 + 1 * 38 :=
+  ⟨_, rfl, by decide⟩
+
+/-! The next two are HELPERS: they only unfold `writeHeader` (shape of the header value) and relate two model
+functions; the clause itself is `ply_body_length_binary` / `ply_header_describes_body_binary`. -/
 
 /-- element counts: the vertex element declares `AttributeLength()` records, the face element (triangle meshes
 only) `len(indices)/3`; the property list of the vertex element is the concatenation of the properties of exactly
 the writers that emit the body, each with the writer's type. -/
-theorem ply_header_describes_body_counts (cfg : WriterCfg) (m : MeshVal α) :
+theorem ply_header_shape (cfg : WriterCfg) (m : MeshVal α) :
     (writeHeader cfg m).format = cfg.format ∧
     (writeHeader cfg m).elements.head? =
       some ⟨nm "vertex", m.attrLen, ((selectWriters cfg m).map WProp.props).flatten⟩ ∧
@@ -63,7 +121,7 @@ theorem ply_header_describes_body_counts (cfg : WriterCfg) (m : MeshVal α) :
 
 /-- schema: the types used to encode a vertex record are, position by position, the types of the header's
 vertex properties -/
-theorem ply_header_describes_body_schema (ws : List WProp) :
+theorem ply_header_schema (ws : List WProp) :
     ((ws.map WProp.props).flatten).map (fun p => match p with | .scalar _ t => some t | .list _ _ _ => none)
       = (writerTypes ws).map some := by
   induction ws with
@@ -108,6 +166,10 @@ theorem ply_record_roundtrip_scalar (c : Coding α) (e : Endian) (attr name : By
   simp only [List.nil_append, List.length_nil, Nat.zero_add, List.getElem_map] at h
   simp [Built.readBin, locOf_binary, h, pure, Except.pure, bind, Except.bind]
 
+/-- instance: header `y double, q uchar, x float`, record (3, 7, 258): the reader for `x` sits at offset 9 and reads 258 -/
+example : ∃ b, buildV1 true [(nm "y", .double), (nm "q", .uchar), (nm "x", .float)] (nm "x") (nm "x") = some b ∧
+    b.readBin toyCoding .le [3, 0, 0, 0, 0, 0, 0, 0, 7, 2, 1, 0, 0] = .ok [258] := ⟨_, rfl, by decide⟩
+
 example : ∃ b, buildV1 true [(nm "y", .double), (nm "q", .uchar), (nm "x", .float)] (nm "x") (nm "x") = some b ∧ b.offs = [9] :=
   ⟨_, buildV1_spec true _ _ _ 2 (by decide) (by decide) (by decide), by decide⟩
 
@@ -130,10 +192,21 @@ theorem ply_encodings_disagree_uchar_scalar (c : Coding α) (e : Endian) (q : By
     (hparse : c.parseF (showNat k.toNat) = some x) :
     ∃ ba bb, buildV1 false [(q, .uchar)] q q = some ba ∧ buildV1 true [(q, .uchar)] q q = some bb ∧
       ba.readAscii c [showNat k.toNat] = .ok [x] ∧
-      bb.readBin c e [k] = .ok [c.div255 (c.ofInt k.toNat)] := by
-  refine ⟨⟨q, [q], [0], none⟩, ⟨q, [q], [0], some .uchar⟩, by simp [buildV1, buildV1.go], by simp [buildV1, buildV1.go], ?_, ?_⟩
+      bb.readBin c e [k] = .ok [c.div255 (c.ofInt k.toNat)] ∧
+      (x ≠ c.div255 (c.ofInt k.toNat) → ba.readAscii c [showNat k.toNat] ≠ bb.readBin c e [k]) := by
+  refine ⟨⟨q, [q], [0], none⟩, ⟨q, [q], [0], some .uchar⟩, by simp [buildV1, buildV1.go], by simp [buildV1, buildV1.go], ?_, ?_, ?_⟩
   · simp [Built.readAscii, hparse, pure, Except.pure, bind, Except.bind]
   · simp [Built.readBin, decScalarBin, Coding.norm8, pure, Except.pure, bind, Except.bind]
+  · intro hne
+    simp [Built.readAscii, Built.readBin, decScalarBin, Coding.norm8, hparse, pure, Except.pure, bind, Except.bind, hne]
+
+/-- … a real counterexample: with the concrete coding and the stored byte 255, the ASCII file `255` loads as 255 and
+the binary file `0xFF` as 1 — the two encodings of one mesh do NOT decode to the same result -/
+theorem ply_encodings_disagree_uchar_scalar_concrete :
+    ∃ ba bb, buildV1 false [(nm "q", .uchar)] (nm "q") (nm "q") = some ba ∧ buildV1 true [(nm "q", .uchar)] (nm "q") (nm "q") = some bb ∧
+      ba.readAscii toyCoding [showNat 255] = .ok [255] ∧ bb.readBin toyCoding .le [255] = .ok [1] ∧
+      ba.readAscii toyCoding [showNat 255] ≠ bb.readBin toyCoding .le [255] :=
+  ⟨_, _, rfl, rfl, by decide, by decide, by decide⟩
 
 /-! ### statements kept at full strength, not proved (residue) -/
 
@@ -159,6 +232,24 @@ def ply_encodings_agree_full (c : Coding α) (sameMesh : MeshVal α → MeshVal 
     writeMesh c ⟨.be, props, wu⟩ m = .ok bb →
     ∃ ma ml mb, readMesh c defaultReader ba = .ok ma ∧ readMesh c defaultReader bl = .ok ml ∧
       readMesh c defaultReader bb = .ok mb ∧ sameMesh ma ml ∧ sameMesh ml mb
+
+/-! ### precision content: a small law bundle -/
+
+/-- the laws a faithful coding satisfies: float32 narrowing `q32`, 8-bit quantisation `q8`, exact doubles and exact
+32-bit integers.  (Go's `float32(·)`, `math.Round(clamp·255)/255`, `math.Float64bits` satisfy them; that the driver's
+`Coding Float` instance computes the same functions is checked by the correspondence, not proved.) -/
+structure CodingLaws (c : Coding α) where
+  q32 : α → α
+  q8 : α → α
+  unf32_f32 : ∀ x, c.unf32 (c.f32 x) = q32 x
+  unf64_f64 : ∀ x, c.unf64 (c.f64 x) = x
+  u8_norm : ∀ x, c.div255 (c.ofInt (c.u8 x).toNat) = q8 x
+
+/-- with the laws, the stored-precision image is what the property names: float32 rounding for `float`, the value itself
+for `double`, `round(clamp v·255)/255` for 8-bit colour (3- and 4-vectors, scalars) -/
+theorem ply_quant_is_stored_precision (c : Coding α) (L : CodingLaws c) (v : α) (dim : Nat) (hdim : dim ≠ 2) :
+    quantBin c dim .float v = L.q32 v ∧ quantBin c dim .double v = v ∧ quantBin c dim .uchar v = L.q8 v := by
+  simp [quantBin, L.unf32_f32, L.unf64_f64, Coding.norm8, hdim, L.u8_norm]
 
 end C04
 end PolyVerif
